@@ -1,252 +1,338 @@
 (* C02 - generated code compiles and renders exactly what the template denotes.
    Proof layer on a fragment of the language (model/IrFrag.v): whitespace, text, string expressions with errors,
-   elements incl. void ones, constant / boolean-constant / string-expression / boolean-expression / class-expression /
-   conditional attributes, raw elements, doctype, HTML and Go comments, raw Go code, if/else-if/else, switch, for, and
-   calls (without blocks) of other templates of the file on fuel.  Every theorem holds for ANY expression semantics
-   (the oracles are universally quantified) and for every tree of the fragment.  [exec_f (compile tbl)] is the meaning
-   of the statements the generator emits after RangeWriter's literal merging [coalesce]; [denote_f tbl] is what the
-   templates denote; results are (output bytes, evaluation trace, error position).
+   elements incl. void ones, raw elements, script elements with {{ }} parts, doctype, HTML and Go comments, raw Go code,
+   if/else-if/else, switch, for, component calls with and without child blocks (templates of the file on fuel,
+   hand-written components as opaque behaviours), the { children... } slot; attributes: constant, boolean-constant,
+   boolean-expression, conditional, spread, and expression attributes of every sink (default, URL, style, on* script,
+   class list).  Every theorem holds for ANY expression semantics ([orc : oracles E] is universally quantified) and for
+   every tree of the fragment.  [exec_f orc tc (compile orc tbl)] is the meaning of the statements the generator emits
+   after RangeWriter's literal merging [coalesce]; [denote_f orc tc tbl] is what the templates denote; results are
+   (output bytes, evaluation trace, error position).  [kids] are the children of the place being rendered (lexical
+   closures); [compile_blk] is their generated form.
    The harness (family "fragment") checks on every run that the printed statements are byte for byte the text of
    generator.Generate and that the compiled code renders what exec/denote say.
-   [tc] = whether the trace records evaluations of class expressions: these are hoisted in front of the element by
-   writeAttributesCSS, so the full trace (tc = true) agrees only on trees without class expressions
-   (C02_eval_only_where_reached_partial, C02_eval_hoisting_refuted); with tc = false everything else is compared. *)
+   [tc] = whether the trace records the HOISTED evaluations: class lists (writeAttributesCSS) and the evaluation of on*
+   expressions for RenderScriptItems (writeElementScript) happen in front of the element, so the full trace (tc = true)
+   agrees only on trees without class / on* expression attributes (C02_eval_only_where_reached_partial,
+   C02_eval_hoisting_refuted, C02_eval_script_twice_refuted); with tc = false everything else is compared.
+   proofs/IrFragDenoteProof.v relates the fragment denotation to spec/Denote.v (C02_denote_agrees below). *)
 From Coq.Strings Require Import Byte String.
 From Coq Require Import List Arith NArith Bool.
 Import ListNotations.
 From V Require Import lib.Bytes model.Ast model.IrFrag proofs.IrFragProof.
 Local Open Scope nat_scope.
 
-(* the generated, literal-merged code of a file writes exactly what its templates denote: output bytes, error position (nothing runs after an error), and the evaluation trace of every expression other than hoisted class lists; any call depth *)
+(* the generated, literal-merged code of a file writes exactly what its templates denote: output bytes, error position (nothing runs after an error), and the evaluation trace of every expression other than the hoisted evaluations; any call depth, any children *)
 Theorem C02_generated_code_correct :
-  forall (E : Type) (escape : bytes -> bytes) (eval_str : E -> expr -> option bytes) (eval_bool : E -> expr -> bool)
-    (eval_for : E -> expr -> list E) (eval_sw : E -> expr -> nat) (eval_class : E -> expr -> bytes) (callee : expr -> bytes) (call_env : E -> expr -> E)
-    (tbl : list (bytes * list nd)) (fuel : nat) (env : E) (l : list nd) (next : option nd),
-    exec_f E escape eval_str eval_bool eval_for eval_sw eval_class callee call_env false (compile escape tbl) fuel env
-      (coalesce (gens escape l next))
-    = denote_f E escape eval_str eval_bool eval_for eval_sw eval_class callee call_env false tbl fuel env l next.
+  forall (E : Type) (orc : oracles E) (tbl : list (bytes * list nd)) (fuel : nat) (env : E) (kids : option (dblock E)) (l : list nd) (next : option nd),
+    exec_f orc false (compile orc tbl) fuel env (option_map (compile_blk orc) kids) (coalesce (gens orc l next))
+    = denote_f orc false tbl fuel env kids l next.
 Proof. intros. apply generated_code_correct; exact (or_introl eq_refl). Qed.
 Print Assumptions C02_generated_code_correct.
 
-(* merging adjacent literals into one WriteString (RangeWriter) never changes what runs: no byte moves across an expression, a call or a control-flow boundary, under any expression semantics *)
+(* merging adjacent literals into one WriteString (RangeWriter) never changes what runs: the merged file (every template body, every child block, any program p) runs as the unmerged one - no byte moves across an expression, a call or a control-flow boundary, under any expression semantics *)
 Theorem C02_coalesce_sound :
-  forall (E : Type) (escape : bytes -> bytes) (eval_str : E -> expr -> option bytes) (eval_bool : E -> expr -> bool)
-    (eval_for : E -> expr -> list E) (eval_sw : E -> expr -> nat) (eval_class : E -> expr -> bytes) (call : E -> expr -> res) (env : E) (tc : bool) (p : list stmt),
-    exec E escape eval_str eval_bool eval_for eval_sw eval_class tc call env (coalesce p) = exec E escape eval_str eval_bool eval_for eval_sw eval_class tc call env p.
+  forall (E : Type) (orc : oracles E) (tbl : list (bytes * list nd)) (fuel : nat) (env : E) (kids : option (dblock E)) (tc : bool) (p : list stmt),
+    exec_f orc tc (compile orc tbl) fuel env (option_map (compile_blk orc) kids) (coalesce p)
+    = exec_f orc tc (compile_raw orc tbl) fuel env (option_map (raw_blk orc) kids) p.
 Proof. intros. apply coalesce_sound. Qed.
 Print Assumptions C02_coalesce_sound.
 
 (* static markup (text, whitespace, doctype, comments, elements and raw elements with constant attributes, nested) is written in source order with the trailing-space rule between neighbours, and nothing else *)
 Theorem C02_static_in_order :
-  forall (E : Type) (escape : bytes -> bytes) (eval_str : E -> expr -> option bytes) (eval_bool : E -> expr -> bool)
-    (eval_for : E -> expr -> list E) (eval_sw : E -> expr -> nat) (eval_class : E -> expr -> bytes) (callee : expr -> bytes) (call_env : E -> expr -> E)
-    (tbl : list (bytes * list nd)) (fuel : nat) (env : E) (l : list nd) (next : option nd) (s : bytes),
-    static_render escape l next = Some s ->
-    exec_f E escape eval_str eval_bool eval_for eval_sw eval_class callee call_env false (compile escape tbl) fuel env
-      (coalesce (gens escape l next)) = lit s.
-Proof. intros. apply static_in_order; [exact (or_introl eq_refl)|assumption]. Qed.
+  forall (E : Type) (orc : oracles E) (tbl : list (bytes * list nd)) (fuel : nat) (env : E) (kids : option (dblock E)) (l : list nd) (next : option nd) (s : bytes),
+    static_render (o_escape orc) l next = Some s ->
+    exec_f orc false (compile orc tbl) fuel env (option_map (compile_blk orc) kids) (coalesce (gens orc l next)) = lit s.
+Proof. intros. apply static_in_order; [exact (or_introl eq_refl)|exact (or_introl eq_refl)|assumption]. Qed.
 Print Assumptions C02_static_in_order.
 
 (* a node list renders as its parts in source order (and, by the error rule of andthen, nothing of b runs when a failed) *)
 Theorem C02_nodes_in_order :
-  forall (E : Type) (escape : bytes -> bytes) (eval_str : E -> expr -> option bytes) (eval_bool : E -> expr -> bool)
-    (eval_for : E -> expr -> list E) (eval_sw : E -> expr -> nat) (eval_class : E -> expr -> bytes) (callee : expr -> bytes) (call_env : E -> expr -> E)
-    (tbl : list (bytes * list nd)) (fuel : nat) (env : E) (a b : list nd) (next : option nd),
-    exec_f E escape eval_str eval_bool eval_for eval_sw eval_class callee call_env false (compile escape tbl) fuel env
-      (coalesce (gens escape (a ++ b) next))
-    = andthen (denote_f E escape eval_str eval_bool eval_for eval_sw eval_class callee call_env false tbl fuel env a (next_of b next))
-              (denote_f E escape eval_str eval_bool eval_for eval_sw eval_class callee call_env false tbl fuel env b next).
+  forall (E : Type) (orc : oracles E) (tbl : list (bytes * list nd)) (fuel : nat) (env : E) (kids : option (dblock E)) (a b : list nd) (next : option nd),
+    exec_f orc false (compile orc tbl) fuel env (option_map (compile_blk orc) kids) (coalesce (gens orc (a ++ b) next))
+    = andthen (denote_f orc false tbl fuel env kids a (next_of b next))
+              (denote_f orc false tbl fuel env kids b next).
 Proof. intros. apply nodes_in_order; exact (or_introl eq_refl). Qed.
 Print Assumptions C02_nodes_in_order.
 
-(* a void element is written as its open tag only: no children, no closing tag *)
+(* a void element is written as its open tag only: no children, no closing tag (in front of it: the definitions its class lists and scripts need) *)
 Theorem C02_void_unclosed :
-  forall (E : Type) (escape : bytes -> bytes) (eval_str : E -> expr -> option bytes) (eval_bool : E -> expr -> bool)
-    (eval_for : E -> expr -> list E) (eval_sw : E -> expr -> nat) (eval_class : E -> expr -> bytes) (callee : expr -> bytes) (call_env : E -> expr -> E)
-    (tbl : list (bytes * list nd)) (fuel : nat) (env : E) (name : bytes) (b : bool) (attrs : list fattr) (t : trailing) (next : option nd),
-    exec_f E escape eval_str eval_bool eval_for eval_sw eval_class callee call_env false (compile escape tbl) fuel env
-      (coalesce (gens escape [Elem name b true attrs [] t] next))
-    = andthen (lit (open_tag escape name))
-        (andthen (dattrs E escape eval_str eval_bool eval_class false env attrs) (lit ([x3e] ++ trailer (Elem name b true attrs [] t) next))).
+  forall (E : Type) (orc : oracles E) (tbl : list (bytes * list nd)) (fuel : nat) (env : E) (kids : option (dblock E)) (name : bytes) (b : bool) (attrs : list fattr) (t : trailing) (next : option nd),
+    exec_f orc false (compile orc tbl) fuel env (option_map (compile_blk orc) kids) (coalesce (gens orc [Elem name b true attrs [] t] next))
+    = andthen (css_defs orc env attrs) (andthen (scripts_defs orc env attrs)
+        (andthen (lit (open_tag orc name))
+          (andthen (dattrs orc false env attrs) (lit ([x3e] ++ trailer (Elem name b true attrs [] t) next))))).
 Proof. intros. apply void_unclosed; exact (or_introl eq_refl). Qed.
 Print Assumptions C02_void_unclosed.
 
 (* a Go comment contributes nothing: the list renders as what precedes it followed by what follows it (it only counts as a non-inline neighbour for the trailing-space rule) *)
 Theorem C02_go_comments_omitted :
-  forall (E : Type) (escape : bytes -> bytes) (eval_str : E -> expr -> option bytes) (eval_bool : E -> expr -> bool)
-    (eval_for : E -> expr -> list E) (eval_sw : E -> expr -> nat) (eval_class : E -> expr -> bytes) (callee : expr -> bytes) (call_env : E -> expr -> E)
-    (tbl : list (bytes * list nd)) (fuel : nat) (env : E) (a b : list nd) (next : option nd),
-    exec_f E escape eval_str eval_bool eval_for eval_sw eval_class callee call_env false (compile escape tbl) fuel env
-      (coalesce (gens escape (a ++ GoComment :: b) next))
-    = andthen (denote_f E escape eval_str eval_bool eval_for eval_sw eval_class callee call_env false tbl fuel env a (Some GoComment))
-              (denote_f E escape eval_str eval_bool eval_for eval_sw eval_class callee call_env false tbl fuel env b next).
+  forall (E : Type) (orc : oracles E) (tbl : list (bytes * list nd)) (fuel : nat) (env : E) (kids : option (dblock E)) (a b : list nd) (next : option nd),
+    exec_f orc false (compile orc tbl) fuel env (option_map (compile_blk orc) kids) (coalesce (gens orc (a ++ GoComment :: b) next))
+    = andthen (denote_f orc false tbl fuel env kids a (Some GoComment))
+              (denote_f orc false tbl fuel env kids b next).
 Proof. intros. apply go_comments_omitted; exact (or_introl eq_refl). Qed.
 Print Assumptions C02_go_comments_omitted.
 
-(* the attributes under a conditional attribute are present exactly when its condition holds (else-branch otherwise); the condition is evaluated once *)
+(* the attributes under a conditional attribute - of every kind: constant, boolean, spread, expression attributes of every sink, nested conditionals - are present exactly when its condition holds (else-branch otherwise); the condition is evaluated once *)
 Theorem C02_cond_attrs_iff :
-  forall (E : Type) (escape : bytes -> bytes) (eval_str : E -> expr -> option bytes) (eval_bool : E -> expr -> bool)
-    (eval_for : E -> expr -> list E) (eval_sw : E -> expr -> nat) (eval_class : E -> expr -> bytes) (call : E -> expr -> res) (env : E) (elem : bytes) (c : expr) (th el : list fattr),
-    exec E escape eval_str eval_bool eval_for eval_sw eval_class false call env (coalesce (gattrs escape elem [FCond c th el]))
-    = andthen (evt KBool c) (dattrs E escape eval_str eval_bool eval_class false env (if eval_bool env c then th else el)).
+  forall (E : Type) (orc : oracles E) (tbl : list (bytes * list nd)) (fuel : nat) (env : E) (kids : option (dblock E)) (elem : bytes) (c : expr) (th el : list fattr),
+    exec_f orc false (compile orc tbl) fuel env (option_map (compile_blk orc) kids) (coalesce (gattrs orc elem [FCond c th el]))
+    = andthen (evt KBool c) (dattrs orc false env (if o_bool orc env c then th else el)).
 Proof. intros. apply cond_attrs_iff; exact (or_introl eq_refl). Qed.
 Print Assumptions C02_cond_attrs_iff.
 
 (* a boolean-expression attribute is present exactly when its expression is true *)
 Theorem C02_bool_attr_iff :
-  forall (E : Type) (escape : bytes -> bytes) (eval_str : E -> expr -> option bytes) (eval_bool : E -> expr -> bool)
-    (eval_for : E -> expr -> list E) (eval_sw : E -> expr -> nat) (eval_class : E -> expr -> bytes) (call : E -> expr -> res) (env : E) (elem n : bytes) (e : expr),
-    exec E escape eval_str eval_bool eval_for eval_sw eval_class false call env (coalesce (gattrs escape elem [FBoolExpr n e]))
-    = andthen (evt KBool e) (if eval_bool env e then lit ([x20] ++ escape n) else unit_r).
+  forall (E : Type) (orc : oracles E) (tbl : list (bytes * list nd)) (fuel : nat) (env : E) (kids : option (dblock E)) (elem n : bytes) (e : expr),
+    exec_f orc false (compile orc tbl) fuel env (option_map (compile_blk orc) kids) (coalesce (gattrs orc elem [FBoolExpr n e]))
+    = andthen (evt KBool e) (if o_bool orc env e then lit ([x20] ++ o_escape orc n) else unit_r).
 Proof. intros. apply bool_attr_iff. Qed.
 Print Assumptions C02_bool_attr_iff.
 
-(* a string-expression attribute writes name="escaped value", evaluating the expression once *)
+(* a string-expression attribute (default sink) writes name="escaped value", evaluating the expression once; an error stops the rendering at the expression's position *)
 Theorem C02_attr_value_escaped :
-  forall (E : Type) (escape : bytes -> bytes) (eval_str : E -> expr -> option bytes) (eval_bool : E -> expr -> bool)
-    (eval_for : E -> expr -> list E) (eval_sw : E -> expr -> nat) (eval_class : E -> expr -> bytes) (call : E -> expr -> res) (env : E) (elem n : bytes) (e : expr) (s : bytes),
-    eval_str env e = Some s ->
-    exec E escape eval_str eval_bool eval_for eval_sw eval_class false call env (coalesce (gattrs escape elem [FExpr n e]))
-    = ([x20] ++ escape n ++ [x3d; x22] ++ escape s ++ [x22], [(KStr, e)], None).
-Proof. intros. apply attr_value_escaped; assumption. Qed.
+  forall (E : Type) (orc : oracles E) (tbl : list (bytes * list nd)) (fuel : nat) (env : E) (kids : option (dblock E)) (elem n : bytes) (e : expr),
+    exec_f orc false (compile orc tbl) fuel env (option_map (compile_blk orc) kids) (coalesce (gattrs orc elem [FExpr n e]))
+    = expr_attr orc n (val_or_err KStr e (option_map (o_escape orc) (o_str orc env e))).
+Proof. intros. apply expr_attr_default. Qed.
 Print Assumptions C02_attr_value_escaped.
+
+(* href on <a> / action on <form>: the templ.SafeURL value, escaped *)
+Theorem C02_attr_url_sink :
+  forall (E : Type) (orc : oracles E) (tbl : list (bytes * list nd)) (fuel : nat) (env : E) (kids : option (dblock E)) (elem n : bytes) (e : expr),
+    exec_f orc false (compile orc tbl) fuel env (option_map (compile_blk orc) kids) (coalesce (gattrs orc elem [FUrl n e]))
+    = expr_attr orc n (o_escape orc (o_url orc env e), [(KUrl, e)], None).
+Proof. intros. apply expr_attr_url. Qed.
+Print Assumptions C02_attr_url_sink.
+
+(* style: what SanitizeStyleAttributeValues returns, written as returned (it is already escaped); its error stops the rendering *)
+Theorem C02_attr_style_sink :
+  forall (E : Type) (orc : oracles E) (tbl : list (bytes * list nd)) (fuel : nat) (env : E) (kids : option (dblock E)) (elem n : bytes) (e : expr),
+    exec_f orc false (compile orc tbl) fuel env (option_map (compile_blk orc) kids) (coalesce (gattrs orc elem [FStyle n e]))
+    = expr_attr orc n (val_or_err KStyle e (o_style orc env e)).
+Proof. intros. apply expr_attr_style. Qed.
+Print Assumptions C02_attr_style_sink.
+
+(* on* attributes: the script's Call, written as is *)
+Theorem C02_attr_script_sink :
+  forall (E : Type) (orc : oracles E) (tbl : list (bytes * list nd)) (fuel : nat) (env : E) (kids : option (dblock E)) (elem n : bytes) (e : expr),
+    exec_f orc false (compile orc tbl) fuel env (option_map (compile_blk orc) kids) (coalesce (gattrs orc elem [FScript n e]))
+    = expr_attr orc n (o_script_call orc env e, [(KScript, e)], None).
+Proof. intros. apply expr_attr_script. reflexivity. Qed.
+Print Assumptions C02_attr_script_sink.
+
+(* spread attributes: what templ.RenderAttributes writes for the map, evaluated once *)
+Theorem C02_attr_spread :
+  forall (E : Type) (orc : oracles E) (tbl : list (bytes * list nd)) (fuel : nat) (env : E) (kids : option (dblock E)) (elem : bytes) (e : expr),
+    exec_f orc false (compile orc tbl) fuel env (option_map (compile_blk orc) kids) (coalesce (gattrs orc elem [FSpread e])) = (o_spread orc env e, [(KSpread, e)], None).
+Proof. intros. apply spread_attr. Qed.
+Print Assumptions C02_attr_spread.
 
 (* adjacent siblings of which the first has TrailingSpace none: no byte between their renderings *)
 Theorem C02_ws_not_invented :
-  forall (E : Type) (escape : bytes -> bytes) (eval_str : E -> expr -> option bytes) (eval_bool : E -> expr -> bool)
-    (eval_for : E -> expr -> list E) (eval_sw : E -> expr -> nat) (eval_class : E -> expr -> bytes) (callee : expr -> bytes) (call_env : E -> expr -> E)
-    (tbl : list (bytes * list nd)) (fuel : nat) (env : E) (a b : nd) (next : option nd),
+  forall (E : Type) (orc : oracles E) (tbl : list (bytes * list nd)) (fuel : nat) (env : E) (kids : option (dblock E)) (a b : nd) (next : option nd),
     trail_of a = Some SpNone ->
-    exec_f E escape eval_str eval_bool eval_for eval_sw eval_class callee call_env false (compile escape tbl) fuel env
-      (coalesce (gens escape [a; b] next))
-    = andthen (denote_f E escape eval_str eval_bool eval_for eval_sw eval_class callee call_env false tbl fuel env [a] None)
-              (denote_f E escape eval_str eval_bool eval_for eval_sw eval_class callee call_env false tbl fuel env [b] next).
+    exec_f orc false (compile orc tbl) fuel env (option_map (compile_blk orc) kids) (coalesce (gens orc [a; b] next))
+    = andthen (denote_f orc false tbl fuel env kids [a] None)
+              (denote_f orc false tbl fuel env kids [b] next).
 Proof. intros. apply ws_not_invented; try exact (or_introl eq_refl); assumption. Qed.
 Print Assumptions C02_ws_not_invented.
 
 (* adjacent inline-or-text siblings with a non-empty trailing space are separated by exactly one space *)
 Theorem C02_ws_not_lost :
-  forall (E : Type) (escape : bytes -> bytes) (eval_str : E -> expr -> option bytes) (eval_bool : E -> expr -> bool)
-    (eval_for : E -> expr -> list E) (eval_sw : E -> expr -> nat) (eval_class : E -> expr -> bytes) (callee : expr -> bytes) (call_env : E -> expr -> E)
-    (tbl : list (bytes * list nd)) (fuel : nat) (env : E) (a b : nd) (next : option nd) (t : trailing),
+  forall (E : Type) (orc : oracles E) (tbl : list (bytes * list nd)) (fuel : nat) (env : E) (kids : option (dblock E)) (a b : nd) (next : option nd) (t : trailing),
     trail_of a = Some t -> t <> SpNone -> inline (Some a) = true -> inline (Some b) = true ->
-    exec_f E escape eval_str eval_bool eval_for eval_sw eval_class callee call_env false (compile escape tbl) fuel env
-      (coalesce (gens escape [a; b] next))
-    = andthen (denote_f E escape eval_str eval_bool eval_for eval_sw eval_class callee call_env false tbl fuel env [a] None)
-        (andthen (lit [x20]) (denote_f E escape eval_str eval_bool eval_for eval_sw eval_class callee call_env false tbl fuel env [b] next)).
+    exec_f orc false (compile orc tbl) fuel env (option_map (compile_blk orc) kids) (coalesce (gens orc [a; b] next))
+    = andthen (denote_f orc false tbl fuel env kids [a] None)
+        (andthen (lit [x20]) (denote_f orc false tbl fuel env kids [b] next)).
 Proof. intros. eapply ws_not_lost; try exact (or_introl eq_refl); eassumption. Qed.
 Print Assumptions C02_ws_not_lost.
 
 (* ... and no space is written when one of the two neighbours is not inline content (block element, comment, call, ...), whatever the source spacing *)
 Theorem C02_ws_block_no_space :
-  forall (E : Type) (escape : bytes -> bytes) (eval_str : E -> expr -> option bytes) (eval_bool : E -> expr -> bool)
-    (eval_for : E -> expr -> list E) (eval_sw : E -> expr -> nat) (eval_class : E -> expr -> bytes) (callee : expr -> bytes) (call_env : E -> expr -> E)
-    (tbl : list (bytes * list nd)) (fuel : nat) (env : E) (a b : nd) (next : option nd),
+  forall (E : Type) (orc : oracles E) (tbl : list (bytes * list nd)) (fuel : nat) (env : E) (kids : option (dblock E)) (a b : nd) (next : option nd),
     inline (Some a) && inline (Some b) = false -> (exists t, trail_of a = Some t) ->
-    exec_f E escape eval_str eval_bool eval_for eval_sw eval_class callee call_env false (compile escape tbl) fuel env
-      (coalesce (gens escape [a; b] next))
-    = andthen (denote_f E escape eval_str eval_bool eval_for eval_sw eval_class callee call_env false tbl fuel env [a] None)
-              (denote_f E escape eval_str eval_bool eval_for eval_sw eval_class callee call_env false tbl fuel env [b] next).
+    exec_f orc false (compile orc tbl) fuel env (option_map (compile_blk orc) kids) (coalesce (gens orc [a; b] next))
+    = andthen (denote_f orc false tbl fuel env kids [a] None)
+              (denote_f orc false tbl fuel env kids [b] next).
 Proof. intros. apply ws_block_no_space; try exact (or_introl eq_refl); assumption. Qed.
 Print Assumptions C02_ws_block_no_space.
 
 (* a string expression that returns an error stops the rendering with templ.Error{Line: to.line + 1, Col: to.col} and writes nothing *)
 Theorem C02_error_position :
-  forall (E : Type) (escape : bytes -> bytes) (eval_str : E -> expr -> option bytes) (eval_bool : E -> expr -> bool)
-    (eval_for : E -> expr -> list E) (eval_sw : E -> expr -> nat) (eval_class : E -> expr -> bytes) (callee : expr -> bytes) (call_env : E -> expr -> E)
-    (tbl : list (bytes * list nd)) (fuel : nat) (env : E) (e : expr) (t : trailing) (next : option nd),
-    eval_str env e = None ->
-    exec_f E escape eval_str eval_bool eval_for eval_sw eval_class callee call_env false (compile escape tbl) fuel env
-      (coalesce (gens escape [Str e t] next))
+  forall (E : Type) (orc : oracles E) (tbl : list (bytes * list nd)) (fuel : nat) (env : E) (kids : option (dblock E)) (tc : bool) (xk : option (xblock E)) (e : expr) (t : trailing) (next : option nd),
+    o_str orc env e = None ->
+    exec_f orc tc (compile orc tbl) fuel env xk (coalesce (gens orc [Str e t] next))
     = ([], [(KStr, e)], Some (epos_of e)).
 Proof. intros. apply str_error; assumption. Qed.
 Print Assumptions C02_error_position.
 
-(* statements after an error do not run (the generated `if templ_7745c5c3_Err != nil { return ... }`) *)
+(* statements after an error do not run (the generated `if templ_7745c5c3_Err != nil { return ... }`), whatever the calls do *)
 Theorem C02_error_stops :
-  forall (E : Type) (escape : bytes -> bytes) (eval_str : E -> expr -> option bytes) (eval_bool : E -> expr -> bool)
-    (eval_for : E -> expr -> list E) (eval_sw : E -> expr -> nat) (eval_class : E -> expr -> bytes) (call : E -> expr -> res) (env : E) (tc : bool) (p q : list stmt),
-    err_of (exec E escape eval_str eval_bool eval_for eval_sw eval_class tc call env p) <> None ->
-    exec E escape eval_str eval_bool eval_for eval_sw eval_class tc call env (p ++ q) = exec E escape eval_str eval_bool eval_for eval_sw eval_class tc call env p.
+  forall (E : Type) (orc : oracles E) (tc : bool) (xcall : E -> expr -> option (xblock E) -> res) (xblk : option (xblock E) -> res) (env : E) (k : option (xblock E)) (p q : list stmt),
+    err_of (exec orc tc xcall xblk env k p) <> None ->
+    exec orc tc xcall xblk env k (p ++ q) = exec orc tc xcall xblk env k p.
 Proof. intros. apply error_stops; assumption. Qed.
 Print Assumptions C02_error_stops.
 
-(* the evaluation trace of the generated code (class expressions recorded too) is the trace of the denotation - expressions on the taken path, once, in source order - for files without class-expression attributes.  Full statement (no guard) is false: C02_eval_hoisting_refuted.  Without the guard the same holds for every expression other than class lists: C02_generated_code_correct *)
+(* the evaluation trace of the generated code (hoisted evaluations recorded too) is the trace of the denotation - expressions on the taken path, once, in source order - for files without class-expression and on* attributes.  The full statement (no guard) is false: C02_eval_hoisting_refuted, C02_eval_script_twice_refuted.  Without the guard the same holds for every evaluation other than the hoisted ones: C02_generated_code_correct *)
 Theorem C02_eval_only_where_reached_partial :
-  forall (E : Type) (escape : bytes -> bytes) (eval_str : E -> expr -> option bytes) (eval_bool : E -> expr -> bool)
-    (eval_for : E -> expr -> list E) (eval_sw : E -> expr -> nat) (eval_class : E -> expr -> bytes) (callee : expr -> bytes) (call_env : E -> expr -> E)
-    (tbl : list (bytes * list nd)) (fuel : nat) (env : E) (l : list nd) (next : option nd),
-    tbl_hoist_free tbl = true -> forallb hoist_free l = true ->
-    trace_of (exec_f E escape eval_str eval_bool eval_for eval_sw eval_class callee call_env true (compile escape tbl) fuel env
-      (coalesce (gens escape l next)))
-    = trace_of (denote_f E escape eval_str eval_bool eval_for eval_sw eval_class callee call_env true tbl fuel env l next).
+  forall (E : Type) (orc : oracles E) (tbl : list (bytes * list nd)) (fuel : nat) (env : E) (kids : option (dblock E)) (l : list nd) (next : option nd),
+    tbl_hoist_free tbl = true -> kids_free kids = true -> forallb hoist_free l = true ->
+    trace_of (exec_f orc true (compile orc tbl) fuel env (option_map (compile_blk orc) kids) (coalesce (gens orc l next)))
+    = trace_of (denote_f orc true tbl fuel env kids l next).
 Proof. intros. apply eval_only_where_reached; right; assumption. Qed.
 Print Assumptions C02_eval_only_where_reached_partial.
 
 (* an if whose condition is false evaluates the condition and nothing of its body, whatever the body contains *)
 Theorem C02_untaken_branch_silent :
-  forall (E : Type) (escape : bytes -> bytes) (eval_str : E -> expr -> option bytes) (eval_bool : E -> expr -> bool)
-    (eval_for : E -> expr -> list E) (eval_sw : E -> expr -> nat) (eval_class : E -> expr -> bytes) (callee : expr -> bytes) (call_env : E -> expr -> E)
-    (tbl : list (bytes * list nd)) (fuel : nat) (env : E) (tc : bool) (c : expr) (th : list nd) (next : option nd),
-    eval_bool env c = false ->
-    exec_f E escape eval_str eval_bool eval_for eval_sw eval_class callee call_env tc (compile escape tbl) fuel env
-      (coalesce (gens escape [If c th [] false []] next)) = evt KBool c.
+  forall (E : Type) (orc : oracles E) (tbl : list (bytes * list nd)) (fuel : nat) (env : E) (kids : option (dblock E)) (tc : bool) (xk : option (xblock E)) (c : expr) (th : list nd) (next : option nd),
+    o_bool orc env c = false ->
+    exec_f orc tc (compile orc tbl) fuel env xk (coalesce (gens orc [If c th [] false []] next)) = evt KBool c.
 Proof. intros. apply untaken_branch_silent; assumption. Qed.
 Print Assumptions C02_untaken_branch_silent.
 
-(* ---------- the hoisting finding (DESIGN 5 C02 "Current tree", 6 row 13) at the model level ----------
-   <div if b { class={ c } }> with b false: the generated code evaluates c in front of the element
-   (writeAttributesCSS), the template does not reach it.  In Go, c = p.Class with p == nil panics. *)
+(* @T(args) { block } for a template T of the file: T's body runs in T's environment, and the block it was handed is a lexical closure - the caller's environment and the caller's own children *)
+Theorem C02_call_with_block_template :
+  forall (E : Type) (orc : oracles E) (tbl : list (bytes * list nd)) (fuel : nat) (env : E) (kids : option (dblock E)) (e : expr) (ch : list nd) (next : option nd) (name : bytes) (body : list nd),
+    o_comp orc e = KTempl name -> find tbl name = Some body ->
+    exec_f orc false (compile orc tbl) (S fuel) env (option_map (compile_blk orc) kids) (coalesce (gens orc [CallB e ch] next))
+    = andthen (evt KCall e) (denote_f orc false tbl fuel (o_call_env orc env e) (Some (DBlk ch env kids)) body None).
+Proof. intros. eapply call_with_block_template; try exact (or_introl eq_refl); eassumption. Qed.
+Print Assumptions C02_call_with_block_template.
+
+(* { children... } renders the block the template was handed, in the environment and with the children of the place where the block was written (not those of the template that renders it) *)
+Theorem C02_children_render_the_block :
+  forall (E : Type) (orc : oracles E) (tbl : list (bytes * list nd)) (fuel : nat) (env : E) (ch : list nd) (cap : E) (k : option (dblock E)) (next : option nd),
+    exec_f orc false (compile orc tbl) (S fuel) env (option_map (compile_blk orc) (Some (DBlk ch cap k))) (coalesce (gens orc [Children] next))
+    = denote_f orc false tbl fuel cap k ch None.
+Proof. intros. apply children_render_the_block; exact (or_introl eq_refl). Qed.
+Print Assumptions C02_children_render_the_block.
+
+(* a call without a block hands no children over (nothing of the caller's own children leaks into the callee) *)
+Theorem C02_no_block_no_children :
+  forall (E : Type) (orc : oracles E) (tbl : list (bytes * list nd)) (fuel : nat) (env : E) (kids : option (dblock E)) (e : expr) (next : option nd) (name : bytes) (body : list nd),
+    o_comp orc e = KTempl name -> find tbl name = Some body ->
+    exec_f orc false (compile orc tbl) (S fuel) env (option_map (compile_blk orc) kids) (coalesce (gens orc [Call e] next))
+    = andthen (evt KCall e) (denote_f orc false tbl fuel (o_call_env orc env e) None body None).
+Proof. intros. eapply no_block_no_children; try exact (or_introl eq_refl); eassumption. Qed.
+Print Assumptions C02_no_block_no_children.
+
+(* without children, { children... } renders nothing *)
+Theorem C02_children_none_empty :
+  forall (E : Type) (orc : oracles E) (tc : bool) (tbl : list (bytes * list nd)) (fuel : nat) (env : E) (next : option nd),
+    exec_f orc tc (compile orc tbl) fuel env None (coalesce (gens orc [Children] next)) = unit_r.
+Proof. intros. apply children_none_empty. Qed.
+Print Assumptions C02_children_none_empty.
+
+(* a hand-written component that renders its children (wrap(): o children c) gets exactly the block of its call site, rendered in the caller's environment with the caller's children *)
+Theorem C02_call_with_block_wrapper :
+  forall (E : Type) (orc : oracles E) (tbl : list (bytes * list nd)) (fuel : nat) (env : E) (kids : option (dblock E)) (e : expr) (ch : list nd) (next : option nd) (o c : bytes),
+    o_comp orc e = KWrap o c ->
+    exec_f orc false (compile orc tbl) (S (S fuel)) env (option_map (compile_blk orc) kids) (coalesce (gens orc [CallB e ch] next))
+    = andthen (evt KCall e) (andthen (lit o) (andthen (denote_f orc false tbl fuel env kids ch None) (lit c))).
+Proof. intros. apply call_with_block_wrapper; try exact (or_introl eq_refl); assumption. Qed.
+Print Assumptions C02_call_with_block_wrapper.
+
+(* a component that never looks at its children (ignore(), templ.Raw) renders its own output only: the block is not rendered and none of its expressions is evaluated *)
+Theorem C02_call_with_block_opaque :
+  forall (E : Type) (orc : oracles E) (tbl : list (bytes * list nd)) (fuel : nat) (env : E) (kids : option (dblock E)) (e : expr) (ch : list nd) (next : option nd) (s : bytes),
+    o_comp orc e = KOpaque s ->
+    exec_f orc false (compile orc tbl) (S fuel) env (option_map (compile_blk orc) kids) (coalesce (gens orc [CallB e ch] next)) = andthen (evt KCall e) (lit s).
+Proof. intros. apply call_with_block_opaque; try exact (or_introl eq_refl); assumption. Qed.
+Print Assumptions C02_call_with_block_opaque.
+
+(* ---------- the two evaluation findings (DESIGN 5 C02 "Current tree", 6 row 13) at the model level ---------- *)
 Definition x_e (s : string) : expr := {| e_val := bs s; e_fi := 0%N; e_fl := 0%N; e_fc := 0%N; e_ti := 0%N; e_tl := 2%N; e_tc := 7%N |}.
+(* the simplest expression semantics: environments are unit, everything false / empty *)
+Definition x_orc0 : oracles unit :=
+  Oracles unit (fun s => s) (fun _ _ => Some []) (fun _ _ => false) (fun _ _ => []) (fun _ _ => 0) (fun _ _ => []) (fun _ _ => []) (fun _ _ => [])
+          (fun _ _ => Some []) (fun _ _ => []) (fun _ _ => []) (fun _ _ => []) (fun _ _ _ => Some []) (fun _ => KUnknown) (fun u _ => u).
+(* <div if p != nil { class={ p.Class } }> with p == nil: the generated code evaluates p.Class in front of the element
+   (writeAttributesCSS), the template does not reach it.  In Go this panics. *)
 Definition x_div_cond_class : list nd :=
   [Elem (bs "div") true false [FCond (x_e "p != nil") [FClass (bs "class") (x_e "p.Class")] []] [] SpNone].
 Theorem C02_eval_hoisting_refuted :
   exists (l : list nd),
-    trace_of (exec_f unit (fun s => s) (fun _ _ => Some []) (fun _ _ => false) (fun _ _ => []) (fun _ _ => 0) (fun _ _ => []) (fun e => e_val e) (fun u _ => u) true
-                (compile (fun s => s) []) 1 tt (coalesce (gens (fun s => s) l None)))
-    <> trace_of (denote_f unit (fun s => s) (fun _ _ => Some []) (fun _ _ => false) (fun _ _ => []) (fun _ _ => 0) (fun _ _ => []) (fun e => e_val e) (fun u _ => u) true
-                [] 1 tt l None).
+    trace_of (exec_f x_orc0 true (compile x_orc0 []) 1 tt None (coalesce (gens x_orc0 l None)))
+    <> trace_of (denote_f x_orc0 true [] 1 tt None l None).
 Proof. exists x_div_cond_class. vm_compute. discriminate. Qed.
 Print Assumptions C02_eval_hoisting_refuted.
 Example C02_ex_hoisted_trace :
-  trace_of (exec_f unit (fun s => s) (fun _ _ => Some []) (fun _ _ => false) (fun _ _ => []) (fun _ _ => 0) (fun _ _ => []) (fun e => e_val e) (fun u _ => u) true
-              (compile (fun s => s) []) 1 tt (coalesce (gens (fun s => s) x_div_cond_class None)))
+  trace_of (exec_f x_orc0 true (compile x_orc0 []) 1 tt None (coalesce (gens x_orc0 x_div_cond_class None)))
   = [(KClass, x_e "p.Class"); (KBool, x_e "p != nil")].
 Proof. vm_compute. reflexivity. Qed.
 Example C02_ex_denoted_trace :
-  trace_of (denote_f unit (fun s => s) (fun _ _ => Some []) (fun _ _ => false) (fun _ _ => []) (fun _ _ => 0) (fun _ _ => []) (fun e => e_val e) (fun u _ => u) true
-              [] 1 tt x_div_cond_class None)
-  = [(KBool, x_e "p != nil")].
+  trace_of (denote_f x_orc0 true [] 1 tt None x_div_cond_class None) = [(KBool, x_e "p != nil")].
+Proof. vm_compute. reflexivity. Qed.
+(* <button onclick={ f() }>: the generated code evaluates f() twice - once as an argument of templ.RenderScriptItems in
+   front of the element, once for the attribute value - and, under a conditional attribute, the first time unconditionally *)
+Definition x_button_onclick : list nd := [Elem (bs "button") false false [FScript (bs "onclick") (x_e "f()")] [] SpNone].
+Theorem C02_eval_script_twice_refuted :
+  exists (l : list nd),
+    trace_of (exec_f x_orc0 true (compile x_orc0 []) 1 tt None (coalesce (gens x_orc0 l None)))
+    <> trace_of (denote_f x_orc0 true [] 1 tt None l None).
+Proof. exists x_button_onclick. vm_compute. discriminate. Qed.
+Print Assumptions C02_eval_script_twice_refuted.
+Example C02_ex_script_twice :
+  trace_of (exec_f x_orc0 true (compile x_orc0 []) 1 tt None (coalesce (gens x_orc0 x_button_onclick None)))
+  = [(KScript, x_e "f()"); (KScript, x_e "f()")]
+  /\ trace_of (denote_f x_orc0 true [] 1 tt None x_button_onclick None) = [(KScript, x_e "f()")].
+Proof. split; vm_compute; reflexivity. Qed.
+Example C02_ex_script_under_cond :
+  trace_of (exec_f x_orc0 true (compile x_orc0 []) 1 tt None
+              (coalesce (gens x_orc0 [Elem (bs "button") false false [FCond (x_e "b") [FScript (bs "onclick") (x_e "f()")] []] [] SpNone] None)))
+  = [(KScript, x_e "f()"); (KBool, x_e "b")].
 Proof. vm_compute. reflexivity. Qed.
 
-(* ---------- non-vacuity: a concrete file with text, a void element, if/else-if, for, switch, attributes, a call, an error ---------- *)
+(* ---------- non-vacuity: a concrete file with text, a void element, if/else-if, for, switch, attributes of every sink, a
+   script element, calls with and without blocks, the children slot, an error ---------- *)
 Definition x_esc (s : bytes) : bytes := flat_map (fun b => if Byte.eqb b x3c then bs "&lt;" else [b]) s.
 (* environments: the stack of loop variables *)
 Definition x_str (env : list bytes) (e : expr) : option bytes :=
   if bytes_eqb (e_val e) (bs "x") then Some (hd [] env) else if bytes_eqb (e_val e) (bs "boom()") then None else Some (e_val e).
-Definition x_bool (env : list bytes) (e : expr) : bool := bytes_eqb (e_val e) (bs "yes").
-Definition x_for (env : list bytes) (e : expr) : list (list bytes) := [bs "a" :: env; bs "<b>" :: env].
-Definition x_sw (env : list bytes) (e : expr) : nat := 1.
-Definition x_callee (e : expr) : bytes := firstn 4 (e_val e).
+Definition x_comp (e : expr) : ckind :=
+  if bytes_eqb (e_val e) (bs "wrap()") then KWrap (bs "[") (bs "]") else if bytes_eqb (e_val e) (bs "ignore()") then KOpaque (bs "(i)")
+  else KTempl (firstn 4 (e_val e)).
+Definition x_orc : oracles (list bytes) :=
+  Oracles (list bytes) x_esc x_str (fun _ e => bytes_eqb (e_val e) (bs "yes")) (fun env _ => [bs "a" :: env; bs "<b>" :: env]) (fun _ _ => 1)
+          (fun _ e => e_val e) (fun _ _ => []) (fun _ e => e_val e) (fun _ e => Some (e_val e)) (fun _ e => e_val e) (fun _ _ => [])
+          (fun _ _ => bs " data-s=""1""") (fun _ _ e => Some (e_val e)) x_comp (fun _ _ => [bs "callee"]).
 Definition x_page : list nd :=
   [Elem (bs "p") true false [FConst (bs "id") (bs "m<n"); FCond (x_e "yes") [FBoolConst (bs "hidden")] []; FBoolExpr (bs "checked") (x_e "no")]
      [Text (bs "Hello") SpHoriz; Elem (bs "br") true true [] [] SpNone;
       If (x_e "no") [Text (bs "never") SpNone] [(x_e "yes", [Str (x_e "name") SpHoriz; Text (bs "!") SpNone])] true [Text (bs "else") SpNone];
       For (x_e "_, x := range xs") [Elem (bs "b") false false [FExpr (bs "title") (x_e "x")] [Str (x_e "x") SpNone] SpHoriz];
       Switch (x_e "k") [(x_e "case 1:", [Text (bs "one") SpNone]); (x_e "default:", [Call (x_e "Foot(1)")])];
-      GoComment; Comment (bs " c ")] SpNone].
-Definition x_tbl : list (bytes * list nd) := [(bs "Foot", [Elem (bs "i") false false [] [Text (bs "foot") SpNone] SpNone])].
+      GoComment; Comment (bs " c ");
+      Elem (bs "a") false false [FUrl (bs "href") (x_e "/u<"); FStyle (bs "style") (x_e "c:r"); FScript (bs "onclick") (x_e "f()"); FSpread (x_e "at"); FClass (bs "class") (x_e "k")] [] SpNone;
+      Script [] [JText (bs "var v = "); JGo (x_e "7") (bs ";") false];
+      For (x_e "_, x := range xs") [CallB (x_e "wrap()") [Str (x_e "x") SpNone; CallB (x_e "Card(x)") [Str (x_e "x") SpNone]]];
+      CallB (x_e "ignore()") [Str (x_e "boom()") SpNone]] SpNone].
+Definition x_tbl : list (bytes * list nd) :=
+  [(bs "Foot", [Elem (bs "i") false false [] [Text (bs "foot") SpNone] SpNone]);
+   (bs "Card", [Elem (bs "u") false false [] [Str (x_e "x") SpNone; Children] SpNone])].
 Example C02_ex_renders :
-  exec_f (list bytes) x_esc x_str x_bool x_for x_sw (fun _ _ => []) x_callee (fun env _ => env) false (compile x_esc x_tbl) 3 []
-    (coalesce (gens x_esc x_page None))
-  = (bs "<p id=""m&lt;n"" hidden>Hello<br>name !<b title=""a"">a</b> <b title=""&lt;b>"">&lt;b></b> <i>foot</i><!-- c --></p>",
+  exec_f x_orc false (compile x_orc x_tbl) 6 [] None (coalesce (gens x_orc x_page None))
+  = (bs "<p id=""m&lt;n"" hidden>Hello<br>name !<b title=""a"">a</b> <b title=""&lt;b>"">&lt;b></b> <i>foot</i><!-- c --><a href=""/u&lt;"" style=""c:r"" onclick=""f()"" data-s=""1"" class=""k""></a><script>var v = 7;</script>[a<u>calleea</u>][&lt;b><u>callee&lt;b></u>](i)</p>",
      [(KBool, x_e "yes"); (KBool, x_e "no"); (KBool, x_e "no"); (KBool, x_e "yes"); (KStr, x_e "name"); (KFor, x_e "_, x := range xs");
-      (KStr, x_e "x"); (KStr, x_e "x"); (KStr, x_e "x"); (KStr, x_e "x"); (KSwitch, x_e "k"); (KCall, x_e "Foot(1)")], None).
+      (KStr, x_e "x"); (KStr, x_e "x"); (KStr, x_e "x"); (KStr, x_e "x"); (KSwitch, x_e "k"); (KCall, x_e "Foot(1)");
+      (KUrl, x_e "/u<"); (KStyle, x_e "c:r"); (KScript, x_e "f()"); (KSpread, x_e "at"); (KJs, x_e "7");
+      (KFor, x_e "_, x := range xs"); (KCall, x_e "wrap()"); (KStr, x_e "x"); (KCall, x_e "Card(x)"); (KStr, x_e "x"); (KStr, x_e "x");
+      (KCall, x_e "wrap()"); (KStr, x_e "x"); (KCall, x_e "Card(x)"); (KStr, x_e "x"); (KStr, x_e "x"); (KCall, x_e "ignore()")], None).
 Proof. vm_compute. reflexivity. Qed.
-(* the literal merging really merges, and stops at control flow: the page body is 8 statements at the top level, 3 of them literals *)
+(* the children are lexical: inside Card the loop variable is the callee's ("callee"), inside the block it is the caller's *)
+Example C02_ex_children_lexical :
+  out_of (exec_f x_orc false (compile x_orc x_tbl) 6 [bs "outer"] None
+            (coalesce (gens x_orc [CallB (x_e "Card(x)") [Str (x_e "x") SpNone]] None)))
+  = bs "<u>calleeouter</u>".
+Proof. vm_compute. reflexivity. Qed.
+(* the literal merging really merges, and stops at control flow, calls and expression sinks *)
 Example C02_ex_coalesced_shape :
-  map (fun s => match s with SLit _ => 0 | SIf _ _ _ _ _ => 1 | SFor _ _ => 2 | SSwitch _ _ => 3 | _ => 4 end) (coalesce (gens x_esc x_page None))
-  = [0; 1; 1; 0; 1; 2; 3; 0].
+  map (fun s => match s with SLit _ => 0 | SIf _ _ _ _ _ => 1 | SFor _ _ => 2 | SSwitch _ _ => 3 | SCallB _ _ => 5 | SClassHoist _ | SScriptHoist _ => 6 | _ => 4 end)
+      (coalesce (gens x_orc x_page None))
+  = [0; 1; 1; 0; 1; 2; 3; 0; 6; 6; 0; 4; 0; 4; 0; 4; 0; 4; 0; 4; 0; 4; 0; 2; 5; 0].
 Proof. vm_compute. reflexivity. Qed.
 Example C02_ex_static : static_render x_esc [Text (bs "a") SpHoriz; Elem (bs "br") true true [FBoolConst (bs "x")] [] SpNone; Text (bs "b") SpHoriz; Text (bs "c") SpNone] None
   = Some (bs "a<br x>b c").
@@ -254,9 +340,15 @@ Proof. vm_compute. reflexivity. Qed.
 Example C02_ex_ws_lost_hyps : exists a b t, trail_of a = Some t /\ t <> SpNone /\ inline (Some a) = true /\ inline (Some b) = true.
 Proof. exists (Text (bs "a") SpVert), (Str (x_e "s") SpNone), SpVert. repeat split; discriminate. Qed.
 Example C02_ex_error :
-  exec_f (list bytes) x_esc x_str x_bool x_for x_sw (fun _ _ => []) x_callee (fun env _ => env) false (compile x_esc x_tbl) 3 []
-    (coalesce (gens x_esc [Text (bs "before") SpHoriz; Str (x_e "boom()") SpHoriz; Text (bs "after") SpNone] None))
+  exec_f x_orc false (compile x_orc x_tbl) 3 [] None
+    (coalesce (gens x_orc [Text (bs "before") SpHoriz; Str (x_e "boom()") SpHoriz; Text (bs "after") SpNone] None))
   = (bs "before ", [(KStr, x_e "boom()")], Some (3%N, 7%N)).
 Proof. vm_compute. reflexivity. Qed.
-Example C02_ex_hoist_free : tbl_hoist_free x_tbl = true /\ forallb hoist_free x_page = true.
+(* an error inside a child block stops the wrapper and everything after the call *)
+Example C02_ex_error_in_block :
+  exec_f x_orc false (compile x_orc x_tbl) 4 [] None
+    (coalesce (gens x_orc [CallB (x_e "wrap()") [Text (bs "in") SpHoriz; Str (x_e "boom()") SpNone]; Text (bs "after") SpNone] None))
+  = (bs "[in ", [(KCall, x_e "wrap()"); (KStr, x_e "boom()")], Some (3%N, 7%N)).
+Proof. vm_compute. reflexivity. Qed.
+Example C02_ex_hoist_free : tbl_hoist_free x_tbl = true /\ forallb hoist_free [Elem (bs "p") true false [FUrl (bs "href") (x_e "u")] [Children] SpNone] = true.
 Proof. split; reflexivity. Qed.
